@@ -4,7 +4,8 @@
 (* per random walk when the walk reaches Depth.                                               *)
 EXTENDS MCCacheStore, Json
 
-CONSTANT Depth
+CONSTANTS Depth,
+          NF      \* store shapes <<nchunks, failAt>> the generator may choose (bias control)
 VARIABLE hist
 
 Rec(a, p, k, n, f, h, e, l, r) ==
@@ -16,28 +17,33 @@ B(p) == IF pc[p] = "blocked" THEN 1 ELSE 0
 
 GenInit == Init /\ hist = <<>>
 
+\* The driver cannot hold back a caller that is blocked on a shard lock: it runs as soon as the
+\* lock is released. The generator therefore resumes blocked callers first.
+ResumePending == \E p \in Clients : pc[p] = "blocked" /\ lock[ShardOf[pend[p][2]]] = Free
+MayRun(p) == ~ResumePending \/ pc[p] = "blocked"
+
 GenNext ==
-    \/ \E p \in Clients, k \in Keys, n \in 0..MaxChunks, f \in -1..(MaxChunks-1) :
-          StoreBegin(p, k, n, f) /\ Log(Rec("store", p, k, n, f, 0, 0, 0, B(p)))
-    \/ \E p \in Clients : StoreChunk(p) /\ Log(Rec("chunk", p, 0, 0, 0, 0, 0, 0, 0))
-    \/ \E p \in Clients : StoreAbort(p) /\ Log(Rec("abort", p, 0, 0, 0, 0, 0, 0, 0))
-    \/ \E p \in Clients : StoreCommit(p) /\ Log(Rec("commit", p, 0, 0, 0, 0, 0, 0, 0))
-    \/ \E p \in Clients, k \in Keys : Get(p, k) /\ Log(Rec("get", p, k, 0, 0, 0, 0, 0, B(p)))
-    \/ \E p \in Clients, k \in Keys : Delete(p, k) /\ Log(Rec("delete", p, k, 0, 0, 0, 0, 0, B(p)))
-    \/ \E h \in 1..MaxHandles : Read(h) /\ Log(Rec("read", 0, 0, 0, 0, h, 0, 0, 0))
-    \/ \E h \in 1..MaxHandles : CloseH(h) /\ Log(Rec("close", 0, 0, 0, 0, h, 0, 0, 0))
+    \/ \E p \in Clients, k \in Keys, nf \in NF :
+          MayRun(p) /\ StoreBegin(p, k, nf[1], nf[2]) /\ Log(Rec("store", p, k, nf[1], nf[2], 0, 0, 0, B(p)))
+    \/ \E p \in Clients : ~ResumePending /\ StoreChunk(p) /\ Log(Rec("chunk", p, 0, 0, 0, 0, 0, 0, 0))
+    \/ \E p \in Clients : ~ResumePending /\ StoreAbort(p) /\ Log(Rec("abort", p, 0, 0, 0, 0, 0, 0, 0))
+    \/ \E p \in Clients : ~ResumePending /\ StoreCommit(p) /\ Log(Rec("commit", p, 0, 0, 0, 0, 0, 0, 0))
+    \/ \E p \in Clients, k \in Keys : MayRun(p) /\ Get(p, k) /\ Log(Rec("get", p, k, 0, 0, 0, 0, 0, B(p)))
+    \/ \E p \in Clients, k \in Keys : MayRun(p) /\ Delete(p, k) /\ Log(Rec("delete", p, k, 0, 0, 0, 0, 0, B(p)))
+    \/ \E h \in 1..MaxHandles : ~ResumePending /\ Read(h) /\ Log(Rec("read", 0, 0, 0, 0, h, 0, 0, 0))
+    \/ \E h \in 1..MaxHandles : ~ResumePending /\ CloseH(h) /\ Log(Rec("close", 0, 0, 0, 0, h, 0, 0, 0))
     \/ \E p \in Clients, k \in Keys, e \in BOOLEAN :
-          UpdateMeta(p, k, e) /\ Log(Rec("update", p, k, 0, 0, 0, IF e THEN 1 ELSE 0, 0, B(p)))
+          MayRun(p) /\ UpdateMeta(p, k, e) /\ Log(Rec("update", p, k, 0, 0, 0, IF e THEN 1 ELSE 0, 0, B(p)))
     \/ \E p \in Clients, c \in Calls :
-          Block(p, c) /\ Log(Rec(c[1], p, c[2], IF c[1] = "store" THEN c[3] ELSE 0,
+          ~ResumePending /\ (c[1] = "store" => <<c[3], c[4]>> \in NF) /\ Block(p, c) /\ Log(Rec(c[1], p, c[2], IF c[1] = "store" THEN c[3] ELSE 0,
                                  IF c[1] = "store" THEN c[4] ELSE 0, 0,
                                  IF c[1] = "update" /\ c[3] THEN 1 ELSE 0, 0, 0))
-    \/ \E k \in Keys : Expire(k) /\ Log(Rec("expire", 0, k, 0, 0, 0, 0, 0, 0))
-    \/ \E k \in Keys : JanRemove(k) /\ Log(Rec("jremove", 0, k, 0, 0, 0, 0, 0, 0))
-    \/ JanScan /\ Log(Rec("scan", 0, 0, 0, 0, 0, 0, 0, 0))
-    \/ JanEnsure /\ Log(Rec("ensure", 0, 0, 0, 0, 0, 0, 0, 0))
-    \/ JanEvictStep /\ Log(Rec("evstep", 0, 0, 0, 0, 0, 0, 0, 0))
-    \/ \E l \in Limits : SetLimit(l) /\ Log(Rec("setlimit", 0, 0, 0, 0, 0, 0, l, 0))
+    \/ \E k \in Keys : ~ResumePending /\ Expire(k) /\ Log(Rec("expire", 0, k, 0, 0, 0, 0, 0, 0))
+    \/ \E k \in Keys : ~ResumePending /\ JanRemove(k) /\ Log(Rec("jremove", 0, k, 0, 0, 0, 0, 0, 0))
+    \/ ~ResumePending /\ JanScan /\ Log(Rec("scan", 0, 0, 0, 0, 0, 0, 0, 0))
+    \/ ~ResumePending /\ JanEnsure /\ Log(Rec("ensure", 0, 0, 0, 0, 0, 0, 0, 0))
+    \/ ~ResumePending /\ JanEvictStep /\ Log(Rec("evstep", 0, 0, 0, 0, 0, 0, 0, 0))
+    \/ \E l \in Limits : ~ResumePending /\ SetLimit(l) /\ Log(Rec("setlimit", 0, 0, 0, 0, 0, 0, l, 0))
 
 GenSpec == GenInit /\ [][GenNext]_<<vars, hist>>
 
